@@ -61,9 +61,9 @@ fn params(tier: Tier) -> (usize, Vec<usize>, Vec<(Backend, SwapMode)>) {
         Tier::Thorough => (12, (0..=8).collect(), vec![(Backend::Vm, SwapMode::InProcess), (Backend::Wasm, SwapMode::InProcess), (Backend::Wasm, SwapMode::Subprocess)]),
     }
 }
-/// quick tier: WASM histories only for every 7th case (wasmtime compile cost)
+/// quick tier: WASM histories only for every 23rd case (wasmtime compile cost)
 fn wasm_selected(tier: Tier, idx: u64) -> bool {
-    tier == Tier::Thorough || idx % 11 == 0
+    tier == Tier::Thorough || idx % 23 == 0
 }
 
 struct Trace {
@@ -482,7 +482,7 @@ impl Prop for C07 {
             assumptions: vec![
                 "channel arity is fixed at 3 (WasmDspRuntime keeps its construction-time io_channels across swaps)".into(),
                 "swaps go through mimium-cli's real file runner (hook H6); on WASM the module bytes are compiled in-process instead of by the CLI's compiler subprocess".into(),
-                "quick tier runs the WASM histories for every 11th case".into(),
+                "quick tier runs the WASM histories for every 23rd case".into(),
             ],
             bounds: json!({"steps": t, "swap_times": st, "edits_per_history": 1, "voices": VOICES.len(), "slots": M}),
             shape: "S",
